@@ -447,6 +447,9 @@ func (s *Set) Value(_ context.Context, t *dials.Type) (reflect.Value, error) {
 		case ffield.Type():
 			ffield.Set(fval)
 			return
+		case ffield.Addr().Type(): // flag is a pointer (*net.IP) and ffield isn't (net.IP)
+			ffield.Set(fval.Elem())
+			return
 		}
 
 		if willOverflow(fval, ptrVal.Elem()) {
